@@ -284,7 +284,7 @@ func cfgRun(args []string) error {
 	work := fs.String("work", "", "scratch directory for projects")
 	jobs := fs.Int("jobs", 8, "")
 	keep := fs.Bool("keep", false, "")
-	timeout := fs.Int("timeout", 90, "seconds per CLI run")
+	timeout := fs.Int("timeout", 150, "seconds per CLI run")
 	fs.Parse(args)
 	// file modes are compared literally with the configured permission string - under the usual umask 022: the configured
 	// permissions are a promise about the file, whatever the environment masks at creation (the generator sets the mode explicitly)
